@@ -50,6 +50,7 @@ Record special := mkSpecial {
   sp_rules : list rule;
   sp_sink : sink;
   sp_reads_inverted : bool;
+  sp_combiner_joins : bool;            (* a following combiner keeps the current product open *)
   sp_args_consumed : bool;
   sp_rejects_empty : bool }.
 
